@@ -18,7 +18,8 @@ Value(e) == [dmax |-> e.dmax, cells |-> e.cells]
 EmptyBmoc == [dmax |-> 0, cells |-> <<>>]
 
 (* ---- new: a BMOC built from an explicit (valid) cell list through BMOCBuilderUnsafe::push / to_bmoc ---- *)
-NewC(e) == << <<"operand_wellformed", WellFormed(Value(e))>> >>
+(* the operand is built by the crate's own low-level builder (push of each cell, to_bmoc): it must come back as the cells pushed *)
+NewC(e) == << <<"operand_wellformed", WellFormed(Value(e)) /\ e.built = 1>> >>
 
 (* ---- op: not / and / or / xor ---- *)
 Expected(e) == IF e.op = "not" THEN Not(Sem(regs[e.a].cells))
